@@ -53,3 +53,7 @@ verus! {
 pub assume_specification<T: std::default::Default + std::marker::Destruct, E: std::marker::Destruct> [std::result::Result::<T, E>::unwrap_or_default] (r: std::result::Result<T, E>) -> (v: T)
     ensures r matches Ok(x) ==> v == x;
 }
+verus! {
+// lossy UTF-8 view of bytes: never fails (text unspecified)
+pub assume_specification<'a> [String::from_utf8_lossy] (v: &'a [u8]) -> std::borrow::Cow<'a, str>;
+}
